@@ -1,8 +1,18 @@
 (* C06 — property theorems only: each restates the full statement and is closed by the lemma proved in Proofs/. *)
 From Coq Require Import ZArith List Bool.
-From NPS Require Import ListAux PySlice NumpySem Scatter BuildIdx XorBroadcast View Index Assign Reduce Scan RaOps Heap Hash HashRun BitArr RLE RLEOps RLE2d DataClass RowsSpec AssignSpec MapSpec Denote Chain.
+From NPS Require Import ListAux PySlice NumpySem Scatter BuildIdx XorBroadcast View Index Assign Reduce Scan RaOps Heap Hash HashRun BitArr RLE RLEOps RLE2d DataClass RowsSpec AssignSpec MapSpec Denote Chain MaterialiseWF.
 Import ListNotations.
 Open Scope Z_scope.
+
+Theorem C06_derived_denote :
+  forall (A : Type) (dflt : A) (a : ra A) (idx : index) (g : gres A) (a' : ra A),
+       WF A a ->
+       GetItem.index_ok A (denote A dflt a) idx ->
+       getitem a idx = Ok g ->
+       derived A g = Some a' ->
+       WF A a' /\ spec_getitem (denote A dflt a) idx = Ok (RRagged (denote A dflt a')).
+Proof. exact derived_denote. Qed.
+Print Assumptions C06_derived_denote.
 
 Theorem C06_chain_correct :
   forall (A : Type) (dflt : A) (idxs : list index) (a a' : ra A),
@@ -20,3 +30,17 @@ Theorem C06_indistinguishable_read :
        GetItem.index_ok A (denote A dflt a) idx -> GetItem.model_obs A a idx = GetItem.model_obs A b idx.
 Proof. exact indistinguishable_read. Qed.
 Print Assumptions C06_indistinguishable_read.
+
+Theorem C06_materialise_wf :
+  forall (A : Type) (dflt : A) (a : ra A),
+       WF A a ->
+       exists a' : ra A,
+         Index.materialise a = Ok a' /\
+         WF A a' /\ is_contig (ra_geom a') /\ denote A dflt a' = denote A dflt a.
+Proof. exact materialise_wf. Qed.
+Print Assumptions C06_materialise_wf.
+
+Theorem C06_rows_of_denote :
+  forall (A : Type) (dflt : A) (a : ra A), WF A a -> rows_of a = Ok (denote A dflt a).
+Proof. exact rows_of_denote. Qed.
+Print Assumptions C06_rows_of_denote.
